@@ -34,6 +34,6 @@ Outcome(cfg) ==
   ELSE IF cfg.outstate # "dir" THEN Fail                                        \* the output path must be an existing directory
   ELSE IF ~NameValid(NameOf(cfg)) THEN Fail                                     \* rejected before anything is created
   ELSE IF cfg.pkgstate # "absent" THEN Fail                                     \* never reuse / overwrite an existing package location
-  ELSE IF cfg.input \in {"valid", "validkw"} THEN O(TRUE, TRUE, "all")
+  ELSE IF cfg.input \in {"valid", "validkw", "validnoterm", "validfull"} THEN O(TRUE, TRUE, "all")
   ELSE O(FALSE, FALSE, "some")                                                  \* token or grammar conflict found while generating
 =============================================================================
